@@ -4,6 +4,7 @@ import (
 	"encoding/json"
 	"fmt"
 	"os"
+	"regexp"
 	"sort"
 	"strings"
 	"sync"
@@ -89,12 +90,6 @@ func CheckC04(p *Program, o *Outcome) []Fail {
 	}
 	classes := map[string]bool{}
 	exp := InitMap(p)
-	multiRem := false
-	for i := range p.Writers {
-		if PatternOf(&p.Writers[i], init).RemovedExisting >= 2 {
-			multiRem = true
-		}
-	}
 	for i := range p.Writers {
 		w, wo := &p.Writers[i], &o.W[i]
 		pat := PatternOf(w, init)
@@ -106,13 +101,13 @@ func CheckC04(p *Program, o *Outcome) []Fail {
 				classes["merge-remove-then-add"] = true
 			case wo.Merges >= 1 && pat.GetThenShift && strings.Contains(wo.CommitErr, "failed to find item"):
 				classes["merge-get-then-shift"] = true
-			case multiRem && ((wo.Merges >= 1 && pat.RemovedExisting >= 2 && strings.Contains(wo.CommitErr, "failed to find item")) ||
-				(pat.ChangesExisting && strings.Contains(wo.CommitErr, "call detected conflict") && !wo.LockFailMerge)):
-				classes["multi-remove-tracks-wrong-item"] = true
 			case wo.LockFailMerge && pat.ChangesExisting && strings.Contains(wo.CommitErr, "call detected conflict"):
 				classes["merge-self-item-lock-conflict"] = true
-			case wo.Merges >= 1 && pat.RemovesExisting && len(p.Init) > p.Store.Slot &&
-				(strings.Contains(wo.CommitErr, "failed to find item") || strings.Contains(wo.CommitErr, "detected a newer version") || strings.Contains(wo.CommitErr, "call detected conflict")):
+			case wo.Merges >= 1 && pat.RemovesExisting && namesSuccessorOfRemoved(w, init, wo.CommitErr):
+				// the replay looks for (or finds changed) the SUCCESSOR of a key this writer removed
+				classes["remove-inner-item-tracks-successor"] = true
+			case !wo.LockFailMerge && strings.Contains(wo.CommitErr, "call detected conflict") && successorClash(p, init, i):
+				// item-lock conflict between a writer that removed k (tracked as succ(k)) and one that touches succ(k)
 				classes["remove-inner-item-tracks-successor"] = true
 			case wo.Merges >= 1 && len(p.Init) == 0 && strings.Contains(wo.CommitErr, "failed to merge add item"):
 				classes["first-root-visible-before-children"] = true
@@ -140,7 +135,7 @@ func CheckC04(p *Program, o *Outcome) []Fail {
 			if hit {
 				classes["double-merge-lost-add"] = true
 			}
-		case wo.Merges >= 1 && pat.RemovesExisting && len(p.Init) > p.Store.Slot && !EqKV(DumpKV(o), SortedKV(exp)):
+		case wo.Merges >= 1 && pat.RemovesExisting && !EqKV(DumpKV(o), SortedKV(exp)):
 			// which removals hit the successor is decided by the tree shape: accept exactly the contents in which,
 			// for some of this writer's removals, the next greater key went instead
 			got := map[int]int{}
@@ -188,6 +183,78 @@ func CheckC04(p *Program, o *Outcome) []Fail {
 	}
 	sort.Strings(cs)
 	return []Fail{{strings.Join(cs, "+"), describe(p, o)}}
+}
+
+var keyInErr = regexp.MustCompile(`with key (-?\d+)`)
+
+func succOf(k int, m map[int]int) (int, bool) {
+	succ, found := 0, false
+	for x := range m {
+		if x > k && (!found || x < succ) {
+			succ, found = x, true
+		}
+	}
+	return succ, found
+}
+
+// removedExisting: the keys of items that existed before and that the writer removes.
+func removedExisting(w *Writer, init map[int]int) []int {
+	m := map[int]int{}
+	for k, v := range init {
+		m[k] = v
+	}
+	var out []int
+	for _, op := range w.Ops {
+		if _, has := init[op.Key]; op.Kind == "remove" && has {
+			if _, still := m[op.Key]; still {
+				out = append(out, op.Key)
+			}
+		}
+		ApplyOps(m, []Op{op})
+	}
+	return out
+}
+
+// namesSuccessorOfRemoved: the merge error names the key that follows a key this writer removed.
+func namesSuccessorOfRemoved(w *Writer, init map[int]int, errText string) bool {
+	if !(strings.Contains(errText, "failed to find item") || strings.Contains(errText, "detected a newer version")) {
+		return false
+	}
+	m := keyInErr.FindStringSubmatch(errText)
+	if m == nil {
+		return false
+	}
+	var named int
+	fmt.Sscan(m[1], &named)
+	for _, k := range removedExisting(w, init) {
+		if s, ok := succOf(k, init); ok && s == named {
+			return true
+		}
+	}
+	return false
+}
+
+// successorClash: writer i is one of two writers A != B where A removes an existing key k and B touches succ(k).
+func successorClash(p *Program, init map[int]int, i int) bool {
+	for a := range p.Writers {
+		for _, k := range removedExisting(&p.Writers[a], init) {
+			s, ok := succOf(k, init)
+			if !ok {
+				continue
+			}
+			for b := range p.Writers {
+				if b == a || (i != a && i != b) {
+					continue
+				}
+				for _, op := range p.Writers[b].Ops {
+					if op.Key == s && op.Kind != "add" && op.Kind != "addne" {
+						return true
+					}
+				}
+			}
+		}
+	}
+	return false
 }
 
 // firstAdds: keys this writer inserts (absent before) -> the value of the inserting call.
@@ -381,14 +448,25 @@ func LoadReplay(path string) (*Program, error) {
 // insertion/removal in that node) is not modelled.
 func OutsideModel(p *Program) bool {
 	init := InitMap(p)
+	adds, removes := 0, false
 	for i := range p.Writers {
 		pat := PatternOf(&p.Writers[i], init)
-		if pat.GetThenShift || pat.RemovedExisting >= 2 {
+		if pat.GetThenShift {
 			return true
 		}
-		if pat.RemovesExisting && len(p.Init) > p.Store.Slot { // the removed item may sit in an inner node
+		if pat.RemoveThenAdd { // whether the replay fails depends on Go's map iteration order: oracle only
 			return true
 		}
+		removes = removes || pat.RemovesExisting
+		for _, op := range p.Writers[i].Ops {
+			if op.Kind == "add" || op.Kind == "addne" || op.Kind == "upsert" {
+				adds++
+			}
+		}
+	}
+	// a removed item may sit in an inner node unless the store is certainly one leaf
+	if removes && len(p.Init)+adds > EffSlot(p) {
+		return true
 	}
 	return false
 }
